@@ -12,7 +12,7 @@ import (
 
 func init() {
 	suites["cbloom"] = suite{
-		rule: "C36: (1) NewCountingBloomFilter over an (n, rate) grid: oracle m>=1 and k>=1 on every accepted configuration; (2) script-level episodes on the fake (add/remove with colliding and repeated indexes, removals that must roll back, ragged lists) vs the Lean script model incl. raw HMGET dumps; (3) end-to-end episodes: real Add/AddMulti/Remove/RemoveMulti/Exists/ExistsMulti/ItemMinCount(Multi)/Count/Delete against the fake on small filters (many collisions), server calls and answers vs the Lean glue+script model, raw counter dumps (negative counter = failure), '!exists' / '!mincount' judged by the specification (net multiplicities) and multi-key ExistsMulti/ItemMinCountMulti results judged per position by the harness, while only previously added items were removed; episodes of a second kind also remove never-added items (rollback path); non-trivial = distinct op with at least one index/key",
+		rule: "C36: (1) NewCountingBloomFilter over an (n, rate) grid: oracle m>=1 and k>=1 on every accepted configuration; (2) script-level episodes on the fake (add/remove with colliding and repeated indexes, removals that must roll back, ragged lists) vs the Lean script model incl. raw HMGET dumps; (3) end-to-end episodes: real Add/AddMulti/Remove/RemoveMulti/Exists/ExistsMulti/ItemMinCount(Multi)/Count/Delete against the fake on small filters (many collisions), server calls and answers vs the Lean glue+script model, raw counter dumps (negative counter = failure), '!exists' / '!mincount' judged by the specification (net multiplicities) and multi-key ExistsMulti/ItemMinCountMulti results judged per position by the harness, while only previously added items were removed; episodes of a second kind also remove never-added items (rollback path); size: filters with 1e8..4e10 counters (9-11 digit hash fields) in the end-to-end episodes (multi-key adds followed by single-key queries/removes), and batches of 1500 keys / 650-key ExistsMulti+ItemMinCountMulti at k=7 in one call; gated overlapping calls on one filter value; non-trivial = distinct op with at least one index/key",
 		run:  runCBloom,
 		replay: func(c *Ctx, lines []string) {
 			ep := &cbfEp{}
@@ -408,8 +408,8 @@ func runCBloom(c *Ctx) {
 	cfgs := []struct {
 		n uint
 		r float64
-	}{{1, 0.9}, {1, 0.5}, {2, 0.9}, {3, 0.3}, {5, 0.1}, {4, 0.01}, {100, 0.9}, {3, 0.001}}
-	for epi := 0; epi < max(8, c.N/40); epi++ {
+	}{{11000000, 0.01}, {200000000, 0.01}, {1, 0.9}, {1, 0.5}, {2, 0.9}, {3, 0.3}, {5, 0.1}, {4, 0.01}, {100, 0.9}, {3, 0.001}, {3000000000, 0.001}}
+	for epi := 0; epi < max(len(cfgs), c.N/40); epi++ {
 		cf := cfgs[epi%len(cfgs)]
 		bf, err := rueidisprob.NewCountingBloomFilter(&fakeClient{srv: newFakeServer(func() int64 { return 1 })}, "bf", cf.n, cf.r)
 		if err != nil {
@@ -489,6 +489,55 @@ func runCBloom(c *Ctx) {
 		}
 		if m <= 24 {
 			ep.op(c, "s.hmget "+all(int(m)))
+		}
+	}
+	// (5) large batches in one call
+	for bi, b := range []struct {
+		n        uint
+		r        float64
+		add, ask int
+	}{{3000, 0.5, 1500, 200}, {2000, 0.01, 50, 650}, {40000000, 0.01, 300, 120}} {
+		bf, err := rueidisprob.NewCountingBloomFilter(&fakeClient{srv: newFakeServer(func() int64 { return 1 })}, "bf", b.n, b.r)
+		if err != nil {
+			continue
+		}
+		m, k, _ := rueidisprob.VerifParams(bf)
+		ep.op(c, fmt.Sprintf("reset %d %d n=%d rate=%s", m, k, b.n, rateBits(b.r)))
+		c.Hit(fmt.Sprintf("big-batch:k=%d:add=%d:ask=%d", k, b.add, b.ask))
+		added := make([]item, b.add)
+		ws := make([]string, b.add)
+		for i := range added {
+			added[i] = mkItem(fmt.Sprintf("cbig%d-a%d", bi, i))
+			ws[i] = added[i].word()
+		}
+		ep.op(c, "add "+strings.Join(ws, " "))
+		qs := make([]string, b.ask)
+		for i := range qs {
+			if i >= b.ask/3 && i%2 == 0 {
+				qs[i] = added[c.Rng.IntN(len(added))].word()
+			} else {
+				qs[i] = mkItem(fmt.Sprintf("cbig%d-q%d", bi, i)).word()
+			}
+		}
+		ep.op(c, "exists "+strings.Join(qs, " "))
+		ep.op(c, "mincount "+strings.Join(qs[len(qs)/2:], " "))
+		rm := make([]string, 0, 40)
+		for j := 0; j < 40 && j < b.add; j++ {
+			rm = append(rm, added[j].word())
+		}
+		ep.op(c, "remove "+strings.Join(rm, " "))
+		ep.op(c, "count")
+		for j := 0; j < 6; j++ {
+			it := added[len(added)-1-j*(len(added)/8)]
+			if !ep.ok || ep.net[it.key] == 0 {
+				continue
+			}
+			ep.op(c, "!exists "+it.word())
+			v, err := ep.bf.ItemMinCount(bg, it.key)
+			ep.srv.takeLog()
+			if err == nil {
+				ep.op(c, fmt.Sprintf("!mincount %s %d", it.word(), v))
+			}
 		}
 	}
 	// (4) overlapping calls on one filter value (gated)
